@@ -751,10 +751,15 @@ class BaseSection(base.Sectionable):
         # there is no rollback in case of a downstream merge error.
         self.merge_check(section, strict)
 
+        # Remember which attributes are taken over, unmerge has to reset them.
+        merged_attrs = []
         if self.definition is None and section.definition is not None:
             self.definition = section.definition
+            merged_attrs.append("definition")
         if self.reference is None and section.reference is not None:
             self.reference = section.reference
+            merged_attrs.append("reference")
+        self._merged_attrs = tuple(merged_attrs)
 
         for obj in section:
             mine = self.contains(obj)
@@ -794,6 +799,13 @@ class BaseSection(base.Sectionable):
                 mine.unmerge(obj)
         for obj in removals:
             self.remove(obj)
+
+        # The definition and reference taken over from the linked section are
+        # referenced content as well.
+        for attr in getattr(self, "_merged_attrs", ()):
+            if getattr(self, attr) == getattr(section, attr):
+                setattr(self, attr, None)
+        self._merged_attrs = ()
 
         # The path may not be valid anymore, so make sure to update it.
         # However this does not reflect changes happening while the section
